@@ -132,6 +132,14 @@ func genBalloonsConfig(t *rapid.T, topo *vfkit.Topo, o genOpts) *blncfg.Config {
 	return c
 }
 
+// blnLateRejected makes a configuration that passes validation and fails only
+// when its balloons are created (more pre-created CPUs than the machine has):
+// the policy has replaced its state by then and must put everything back.
+func blnLateRejected(c *vhConfig, topo *vfkit.Topo) *vhConfig {
+	c.Balloons.BalloonDefs = append(c.Balloons.BalloonDefs, &blncfg.BalloonDef{Name: "huge", MinBalloons: 2, MinCpus: topo.OnlineCPUs().Size()})
+	return c
+}
+
 func max(a, b int) int {
 	if a > b {
 		return a
@@ -157,8 +165,11 @@ func genBalloonsCase(t *rapid.T, o genOpts) *hcCase {
 	saved := taAnnotations
 	_ = saved
 	c.Ops = genOpsWith(t, o, topo, blnAnnotations, func(t *rapid.T) *vhConfig {
-		if rapid.IntRange(0, 3).Draw(t, "sameCfg") == 0 {
+		switch rapid.IntRange(0, 5).Draw(t, "sameCfg") {
+		case 0:
 			return cfg.clone()
+		case 1:
+			return blnLateRejected(&vhConfig{Balloons: genBalloonsConfig(t, topo, o)}, topo)
 		}
 		return &vhConfig{Balloons: genBalloonsConfig(t, topo, o)}
 	})
